@@ -18,4 +18,25 @@ CHECKS = {
              ">=2 year files, distinct by (timeframe, schema, final model state)",
         assumptions=["system and configured time zone UTC", "model slot arithmetic: floor(epoch/tf)*tf"],
     ),
+    "C09": dict(
+        test="TestC09", level="exploration", shards=16,
+        tiers=dict(quick=dict(checks=30, timeout=600), thorough=dict(checks=1500, timeout=3000)),
+        rule="rapid histories of 1-6 variable-length write requests (1-3000 records over 1-4 intervals each, ns offsets "
+             "from boundary classes {0,1,res-1,res,last ns,second edges} and uniform, payload random/constant/few-values, "
+             "all on-disk timeframes, 1-3 years) against a multiset model; non-trivial = an interval hit by >=2 requests "
+             "or a compressible interval of >=200 records, distinct by (timeframe, schema, record list)",
+        assumptions=["system and configured time zone UTC"],
+    ),
+    "C10": dict(
+        test="TestC10", level="exploration", shards=16, exhaustive_thorough=True,
+        tiers=dict(quick=dict(checks=1, timeout=600), thorough=dict(checks=1, timeout=3000)),
+        rule="enumeration of encode(GetIntervalTicks32Bit)/decode(GetTimeFromTicks) round trips: 1Sec every ns offset "
+             "of an interval (thorough: all 10^9, quick: stride 997 plus dense edges) for 4 interval positions; every "
+             "other on-disk timeframe x 4 interval positions (first/last of a year, leap day, mid-year): stratified "
+             "tick boundaries k*interval/2^32 +-2 ns, every whole-second edge +-6 ns, dense 3000-ns windows, uniform "
+             "samples; non-trivial = offset within 2 ns of a tick boundary (distinct k by construction) or in the last "
+             "8 ns of a second in a dense 1Sec pass",
+        assumptions=["exhaustive only for the 1Sec offsets in the thorough tier; other timeframes are sampled densely"],
+        technique="exhaustive/stratified enumeration of the round trip against an arithmetic oracle",
+    ),
 }
